@@ -2,6 +2,7 @@ import Driver.Codec
 import MW.Proto.Codec
 import MW.Proto.Nested
 import MW.Inv.WorldInv
+import MW.Inv.WorldPayable
 /-!
 # Model driver: one JSON request per line on stdin, one JSON reply per line on stdout.
 
@@ -79,7 +80,7 @@ def handleEvent (st : DState) (w : World) (ev : Json) : DState × Json :=
     let g := wgstep w st.ghost e
     let j := match txJson build r msgJ fj with
       | .obj kvs => Json.obj (kvs.insert "envelope" (.bool ok) |>.insert "winv"
-          (Json.arr ((winvChecks r.w g).map Json.bool).toArray))
+          (Json.arr ((winvChecks r.w g ++ [jinvCheck r.w g]).map Json.bool).toArray))
       | x => x
     ({ st with world := some r.w, ghost := g, envOK := ok }, j)
   let bad (s : String) : DState × Json := (st, Json.mkObj [("bad", .str s)])
